@@ -47,7 +47,33 @@ IFACES = ["Audio", "Metadata", "PushUpdater", "RemoteControl"]
 
 
 class Injected(Exception):
-    """The failure a fake collaborator raises."""
+    """The failure a fake collaborator raises (default class)."""
+
+
+# the exception CLASS of an injected failure: a kind "fail:<name>" raises that class
+EXC_CLASSES = ["ProtocolError", "AuthenticationError", "RuntimeError", "OSError", "ConnectionRefusedError",
+               "ConnectionResetError", "TimeoutError", "asyncio.TimeoutError", "KeyError", "ValueError"]
+
+
+def make_exc(name, msg):
+    from pyatv import exceptions
+
+    if not name or name == "Injected":
+        ex = Injected(msg)
+    elif name == "asyncio.TimeoutError":
+        ex = asyncio.TimeoutError(msg)
+    elif hasattr(exceptions, name):
+        ex = getattr(exceptions, name)(msg)
+    else:
+        ex = {"RuntimeError": RuntimeError, "OSError": OSError, "ConnectionRefusedError": ConnectionRefusedError,
+              "ConnectionResetError": ConnectionResetError, "TimeoutError": TimeoutError, "KeyError": KeyError,
+              "ValueError": ValueError}[name](msg)
+    ex._verif_injected = True
+    return ex
+
+
+def base_kind(kind):
+    return kind.split(":")[0] if isinstance(kind, str) else kind
 
 
 # ------------------------------------------------------------------------------------
@@ -60,6 +86,10 @@ class Plan:
     def __init__(self, fault_at=None, kind="fail", park_at=None, fault_name=None):
         self.fault_at = fault_at
         self.fault_name = fault_name      # alternative to an index: the call with this name
+        self.exc = None
+        if isinstance(kind, str) and ":" in kind:
+            kind, self.exc = kind.split(":", 1)
+        self.struck = False
         self.kind = kind
         self.park_at = park_at
         self.n = 0
@@ -77,7 +107,9 @@ class Plan:
             await self.resume.wait()
         if self.fault_at == i or (self.fault_name is not None and self.fault_name == name):
             if self.kind == "fail":
-                raise Injected(f"injected failure at point {i} ({name})")
+                self.struck = True
+                raise make_exc(self.exc, f"injected failure at point {i} ({name})")
+            self.struck = True
             (self.op_task or asyncio.current_task()).cancel()
         await asyncio.sleep(0)
 
@@ -87,7 +119,8 @@ class Plan:
         self.n += 1
         self.names.append(name)
         if self.fault_at == i or (self.fault_name is not None and self.fault_name == name):
-            raise Injected(f"injected failure at point {i} ({name})")
+            self.struck = True
+            raise make_exc(self.exc, f"injected failure at point {i} ({name})")
 
 
 class World:
@@ -165,7 +198,7 @@ def injected_in(ex):
     """Is the injected failure the (possibly wrapped) cause of this exception?"""
     seen = 0
     while ex is not None and seen < 10:
-        if isinstance(ex, Injected):
+        if getattr(ex, "_verif_injected", False):
             return True
         ex = ex.__cause__ or ex.__context__
         seen += 1
@@ -529,12 +562,10 @@ async def run_connect(subset, fault=None, delays=None, closes=None):
         try:
             atv = await plan.op_task
             outcome = "ok"
-        except Injected:
-            outcome = "fail"
         except asyncio.CancelledError:
             outcome = "cancel"
         except Exception as ex:  # an observation, never a crash
-            outcome = "err:" + type(ex).__name__
+            outcome = "fail" if injected_in(ex) else "err:" + type(ex).__name__
         at_return = world.ledger()
         pending_at_return = len([t for t in asyncio.all_tasks() - before
                                  if not t.done() and t is not asyncio.current_task()])
@@ -784,7 +815,9 @@ async def scenario_overlap(op1, op2, vol_known, park_at, fault2=None, kind2="fai
 
 
 def run_async(coro):
-    loop = asyncio.new_event_loop()
+    from harness.core.vloop import VirtualLoop
+
+    loop = VirtualLoop()      # retry / poll sleeps of the real code take virtual time
     try:
         asyncio.set_event_loop(loop)
         return loop.run_until_complete(coro)
@@ -807,7 +840,7 @@ OPS = [("stream", True), ("stream", False), ("play", True), ("play", False)]
 
 
 def fault_str(fault):
-    return "-" if fault is None else f"{fault[0]}:{fault[1]}"
+    return "-" if fault is None else f"{fault[0]}:{base_kind(fault[1])}"
 
 
 def csv(xs):
@@ -921,7 +954,7 @@ def judge(case, obs):
     fam = case["family"]
     bad = []
     if fam == "connect":
-        injected_cancel = bool(case["fault"]) and case["fault"][2] == "cancel"   # outside the property
+        injected_cancel = bool(case["fault"]) and base_kind(case["fault"][2]) == "cancel"   # outside the property
         if obs["outcome"] != "ok" and not injected_cancel:            # connect() raised
             step = CONNECT_STEPS[case["fault"][1]] if case["fault"] else "-"
             if obs["ledger_at_return"] or obs["pending_at_return"]:
@@ -988,7 +1021,12 @@ def compare(ctx, case, obs, answers):
     """Correspondence: model answers vs. the real code."""
     fam = case["family"]
 
-    def cmp_run(ans, o, where):
+    def cmp_run(ans, o, where, kind=None):
+        if kind and ":" in kind and o["outcome"] != "fail":
+            # a failure of this CLASS is handled by the code itself (retry, "connection lost
+            # means playback ended", ...): outside the model, only the oracle applies
+            ctx.note("class-handled:" + kind.split(":")[1])
+            return
         m = parse_run(ans)
         impl = {"outcome": o["outcome"], "ledger": o["ledger"], "points": o["points"]}
         if case.get("raop_props") is not None and impl["outcome"].startswith("err:"):
@@ -1001,7 +1039,7 @@ def compare(ctx, case, obs, answers):
             ctx.disagree(case, impl, ans, where=where)
 
     if fam in ("connect", "single"):
-        cmp_run(answers[0], obs, fam)
+        cmp_run(answers[0], obs, fam, (case["fault"] or [None])[-1] if case["fault"] else None)
     elif fam == "overlap":
         ctx.validated()
         if not obs["reached"]:
@@ -1010,14 +1048,15 @@ def compare(ctx, case, obs, answers):
             return
         if answers[0] != csv(obs["held"]):
             ctx.disagree(case, csv(obs["held"]), answers[0], where="overlap: held while parked")
-        cmp_run(answers[1], {"outcome": obs["outcome2"], "ledger": obs["ledger2"], "points": obs["points2"]}, "overlap: second call")
+        cmp_run(answers[1], {"outcome": obs["outcome2"], "ledger": obs["ledger2"], "points": obs["points2"]}, "overlap: second call",
+                (case["fault2"] or [None])[-1] if case["fault2"] else None)
         m1 = parse_run(answers[2])
         ctx.validated()
         if m1 is None or m1["outcome"] != obs["outcome1"] or m1["ledger"] != obs["ledger1"]:
             ctx.disagree(case, [obs["outcome1"], obs["ledger1"]], answers[2], where="overlap: first call resumed")
     elif fam == "seq":
-        for ans, o in zip(answers, obs["steps"]):
-            cmp_run(ans, o, "seq step")
+        for ans, o, st in zip(answers, obs["steps"], case["steps"]):
+            cmp_run(ans, o, "seq step", st["fault"][-1] if st["fault"] else None)
 
 
 def dry_points(op, vol):
@@ -1025,12 +1064,17 @@ def dry_points(op, vol):
     return run_async(scenario_single(op, vol, None, "fail"))["names"]
 
 
-def faults_for(names, limit=None):
+def faults_for(names, limit=None, classes=0, salt=0):
+    """[point, kind] for every point: a failure (default class), a cancellation (awaits only) and
+    `classes` more failures of other exception classes (rotating through EXC_CLASSES; all if < 0)."""
     out = []
     for k, name in enumerate(names[:limit] if limit else names):
         out.append([k, "fail"])
         if not name.startswith("sync:"):
             out.append([k, "cancel"])
+        n = len(EXC_CLASSES) if classes < 0 else classes
+        for j in range(n):
+            out.append([k, "fail:" + EXC_CLASSES[(k * max(n, 1) + j + salt) % len(EXC_CLASSES)]])
     return out
 
 
@@ -1058,6 +1102,13 @@ def gen_cases(ctx):
                     cases.append({"family": "connect", "subset": subset, "fault": [k, step, "fail"], "delays": delays})
             if ctx.thorough or k == m - 1:
                 cases.append({"family": "connect", "subset": subset, "fault": [k, 0, "cancel"], "delays": patterns[1]})
+            # the exception CLASS of the failure (OSError family, timeouts, pyatv errors, ...)
+            for step in range(len(CONNECT_STEPS)):
+                chosen = EXC_CLASSES if (ctx.thorough or (step == 0 and m <= 2)) else \
+                    [EXC_CLASSES[(mask + 3 * k + step + j) % len(EXC_CLASSES)] for j in range(2)]
+                for cls in chosen:
+                    cases.append({"family": "connect", "subset": subset, "fault": [k, step, "fail:" + cls],
+                                  "delays": [0] * m})
             # close() of the protocols already connected returns tasks that raise / finish late
             if k >= 1:
                 modes = ["sync", "late", "raise"]
@@ -1077,7 +1128,9 @@ def gen_cases(ctx):
     for op, c in variants():
         names[key(op, c)] = nm = dry_points(op, c)
         for foreign in foreigns:
-            faults = [None] + faults_for(nm, 2 if (foreign and not ctx.thorough) else None)
+            salt = sum(map(ord, op[0])) + 2 * op[1] + 4 * c[0] + 8 * c[1]
+            faults = [None] + faults_for(nm, 2 if (foreign and not ctx.thorough) else None,
+                                         classes=(-1 if ctx.thorough else 3) if not foreign else 0, salt=salt)
             for f in faults:
                 cases.append({"family": "single", "op": list(op), "vol": c, "fault": f, "foreign": foreign})
     #    receivers whose TXT record makes helper parsing raise between two collaborator calls
@@ -1113,6 +1166,8 @@ def gen_cases(ctx):
             if r >= 0.2:
                 k = rng.randint(0, len(nm) - 1)
                 fault = [k, "fail" if (rng.random() < 0.5 or nm[k].startswith("sync:")) else "cancel"]
+                if fault[1] == "fail" and rng.random() < 0.5:
+                    fault[1] = "fail:" + EXC_CLASSES[rng.randint(0, len(EXC_CLASSES) - 1)]
             fr = rng.random()
             foreign = None if fr < 0.5 else ([] if fr < 0.7 else sorted(set(rng.randint(0, 3) for _ in range(rng.randint(1, 3)))))
             steps.append({"op": list(op), "fault": fault, "foreign": foreign})
